@@ -59,7 +59,7 @@ def strLt : Str → Str → Bool
   | [], _ :: _ => true
   | _ :: _, [] => false
   | a :: as, b :: bs =>
-    if a.val < b.val then true else if b.val < a.val then false else strLt as bs
+    if a.toNat < b.toNat then true else if b.toNat < a.toNat then false else strLt as bs
 
 def insertSorted {β} (p : Str × β) : List (Str × β) → List (Str × β)
   | [] => [p]
@@ -151,18 +151,24 @@ def dictSetValue {V} (S : Schema V) (final : List (Str × V)) : Option Err × El
                                      | some x => S.setF f x       -- `self[key].set(value)`
                                      | none => S.blank))
 
+/-- `sorted(attributes)` after the rename scan and the removal of omitted names -/
+def candidates (fields : List Str) (a : Args) : List Str :=
+  let attrs := growAttrs fields a.ren                      -- `if rename: attributes.update(...)`
+  sortStrs (attrs.filter fun x => !a.om.contains x)        -- `if omit: attributes.difference_update(omit)`
+
+/-- `((attr, getattr(obj, attr)) for attr in sorted(attributes) if hasattr(obj, attr))` -/
+def readable {V} (o : Obj V) (cand : List Str) : List (Str × V) :=
+  cand.filterMap fun x => (o.get x).map (x, ·)
+
 /-- `Dict.set_by_object` on an element in state `e` -/
 def setByObject {V} (S : Schema V) (e : Elem V) (o : Obj V) (a : Args) : SetByResult V :=
   let fields := S.fields                                   -- `set(self.keys())`
-  let attrs := growAttrs fields a.ren                      -- `if rename: attributes.update(...)`
-  let attrs := attrs.filter fun x => !a.om.contains x    -- `if omit: attributes.difference_update(omit)`
-  let cand := sortStrs attrs
+  let cand := candidates fields a
   -- keyslice_pairs is a generator: its `include and omit` test runs at the first `next()`,
   -- before `possible` is advanced, so nothing has been read from the object yet
   if !a.inc.isEmpty && !a.om.isEmpty then ⟨[], some .typeError, e⟩
   else
-    let possible := cand.filterMap fun x => (o.get x).map (x, ·)   -- `if hasattr(obj, attr)`
-    match keyslicePairs { a with key := none } possible with
+    match keyslicePairs { a with key := none } (readable o cand) with
     | .error x => ⟨cand, some x, e⟩
     | .ok sliced =>
       let final := dictOf (sliced.filter fun p => fields.contains p.1)  -- `if key in fields`
